@@ -305,7 +305,7 @@ class Ref:
         sC = sum(self.share[g] for g in C)
         vt = kw.get('volume_ratio_tolerance')
         if vt is not None:
-            r = sC / sT
+            r = sC / sT if sT else float('inf')      # a treatment group without any volume: no finite ratio
             lo, hi = 1 / (1 + vt), 1 + vt
             out['volume'] = (lo * (1 - RTOL) <= r <= hi * (1 + RTOL), lo * (1 + RTOL) <= r <= hi * (1 - RTOL))
         sr = kw.get('treatment_share_range')
